@@ -83,6 +83,54 @@ def generate(g, tier):
         vars_ = {'shared': shared_after}
         if visible: vars_['made'] = v0
         cases.append(dict(op='compile_file', file=main, files=files, meta=dict(family='contract-' + kw + '-' + where, exp=['ok', out, [], vars_])))
+    # the same dotted name used from files of different folders names different files (resolution is relative to the file the
+    # command stands in, every time)
+    for _ in range(count(tier, 40, 400)):
+        folders = r.sample(['proj', 'proj/sub', 'proj/lib', 'proj/sub/deep', 'proj/x-1'], r.randint(2, 4))
+        nm = r.choice(['util', 'common', 'm0'])
+        kw = r.choice(['START', 'START', 'STARTCODE'])
+        files, out = {}, []
+        main = f'{folders[0]}/main.txt'
+        body = []
+        order = list(range(len(folders))); r.shuffle(order)
+        for k in order:
+            d = folders[k]
+            files[f'{d}/{nm}.txt'] = f'STRING {nm}-of-{d}\nVAR who "{d}"'
+            if k == 0:
+                body.append(f'{kw} {nm}'); out.append(f'STRING {nm}-of-{d}')
+            else:
+                missing = g.chance(0.15)
+                if missing: del files[f'{d}/{nm}.txt']
+                files[f'{d}/a.txt'] = f'{kw} {nm}\n$STRING "a-saw-"+who' if kw == 'START' else f'{kw} {nm}\nSTRING a-of-{d}'
+                body.append(f'START {import_name(main, d + "/a.txt")}')
+                if missing: out = None; break
+                out += [f'STRING {nm}-of-{d}', f'STRING a-saw-{d}' if kw == 'START' else f'STRING a-of-{d}']
+        files[main] = '\n'.join(body + ['STRING end'])
+        exp = ['ok', out + ['STRING end'], [], None] if out is not None else ['err', 'path']
+        cases.append(dict(op='compile_file', file=main, files=files, meta=dict(family='same-name', exp=exp)))
+    # an imported file that defines a function the importer already has replaces it (START / STARTENV paste definitions), also
+    # through nested imports and after a local redefinition
+    for _ in range(count(tier, 40, 400)):
+        kw = r.choice(['START', 'STARTENV'])
+        d1, d2 = r.choice(DIRS), r.choice(DIRS)
+        main, theme, mid = f'{d1}/main.txt', f'{d2}/theme.txt', f'{d2}/mid.txt'
+        nested = g.chance(0.4)
+        files = {theme: 'FUNC greet\n    STRING themed\nSTRING theme-loaded'}
+        if nested: files[mid] = f'{kw} {import_name(mid, theme)}\nSTRING mid-loaded'
+        tgt = mid if nested else theme
+        shape = r.choice(['override', 'reimport', 'twice'])
+        loaded = ([] if kw == 'STARTENV' else (['STRING theme-loaded'] + (['STRING mid-loaded'] if nested else [])))
+        if shape == 'override':
+            text = f'FUNC greet\n    STRING default\nRUN greet\n{kw} {import_name(main, tgt)}\nRUN greet'
+            out = ['STRING default'] + loaded + ['STRING themed']
+        elif shape == 'reimport':
+            text = f'{kw} {import_name(main, tgt)}\nRUN greet\nFUNC greet\n    STRING local\nRUN greet\n{kw} {import_name(main, tgt)}\nRUN greet'
+            out = loaded + ['STRING themed', 'STRING local'] + loaded + ['STRING themed']
+        else:
+            text = f'FUNC greet\n    STRING default\nIF TRUE\n    {kw} {import_name(main, tgt)}\n    RUN greet\nRUN greet'
+            out = loaded + ['STRING themed', 'STRING default']
+        files[main] = text
+        cases.append(dict(op='compile_file', file=main, files=files, meta=dict(family='override-' + shape, exp=['ok', out, [], None])))
     # path shapes
     for _ in range(count(tier, 150, 1000)):
         d1 = r.choice(DIRS)
